@@ -49,6 +49,7 @@ type Contract struct {
 	Exits       *Clause // "exits when e"
 	MayPanic    bool    // panic/exit behaviour unspecified
 	NoReturn    bool
+	Dispatch    bool
 	IgnoreDefer bool
 	Loops       map[int]*LoopSpec
 	Props       []string
@@ -63,6 +64,7 @@ type Contract struct {
 type AtClause struct {
 	Where  string
 	Clause *Clause
+	Effect *Effect // ghost statement instead of an assertion
 }
 
 var labelRe = regexp.MustCompile(`^\[([A-Za-z0-9_.,\- ]+)\]\s*`)
@@ -169,6 +171,9 @@ func ParseContractFile(path, pkgPath string) ([]*Contract, error) {
 				return nil, fmt.Errorf("%s:%d: %v", path, lineNo, err)
 			}
 			cur.Effects = append(cur.Effects, &Effect{Target: strings.TrimSpace(parts[0]), Src: rest, Expr: e})
+		case "dispatch":
+			// interface method calls in this function are resolved to in-package implementers under contract
+			cur.Dispatch = true
 		case "noghost":
 			cur.NoGhost = true
 		case "ignoredefer":
@@ -245,6 +250,20 @@ func ParseContractFile(path, pkgPath string) ([]*Contract, error) {
 				where = "call " + callee
 			}
 			k, r3 := splitWord(r2)
+			if k == "effect" {
+				// ghost statement executed just before the call: "at call X effect ghost.v = e"
+				parts := strings.SplitN(r3, "=", 2)
+				if len(parts) != 2 {
+					return nil, fmt.Errorf("%s:%d: bad at-call effect", path, lineNo)
+				}
+				e, err := parser.ParseExpr(strings.TrimSpace(parts[1]))
+				if err != nil {
+					return nil, fmt.Errorf("%s:%d: %v", path, lineNo, err)
+				}
+				cur.Asserts = append(cur.Asserts, &AtClause{Where: where, Effect: &Effect{Target: strings.TrimSpace(parts[0]), Src: r3, Expr: e},
+					Clause: &Clause{Src: "effect " + r3, File: path, Line: lineNo}})
+				continue
+			}
 			if k != "assert" {
 				return nil, fmt.Errorf("%s:%d: expected 'assert' after at-location", path, lineNo)
 			}
@@ -326,7 +345,9 @@ func (c *Contract) allClauses() []*Clause {
 		}
 	}
 	for _, a := range c.Asserts {
-		out = append(out, a.Clause)
+		if a.Effect == nil {
+			out = append(out, a.Clause)
+		}
 	}
 	return out
 }
